@@ -751,6 +751,10 @@ func (f *frame) frameCheckKey(cur *State, k string, ix Term, pos token.Pos) {
 	}
 	var alts []Term
 	alts = append(alts, fmt.Sprintf("(>= %s %s)", ix, ms.allocAt))
+	if strings.HasPrefix(k, "F:") {
+		// a struct stored inline in a backing array allocated by this activation
+		alts = append(alts, fmt.Sprintf("(and (< %s 0) (>= (elem_arr %s) %s))", ix, ix, ms.allocAt))
+	}
 	for _, r := range ms.refs[k] {
 		if r == ix {
 			return
@@ -831,6 +835,9 @@ func (f *frame) frameCheckKeyNamed(cur *State, k string, ix Term, pos token.Pos,
 		return
 	}
 	alts := []Term{fmt.Sprintf("(>= %s %s)", ix, ms.allocAt)}
+	if strings.HasPrefix(k, "F:") {
+		alts = append(alts, fmt.Sprintf("(and (< %s 0) (>= (elem_arr %s) %s))", ix, ix, ms.allocAt))
+	}
 	for _, r := range ms.refs[k] {
 		if r == ix {
 			return
@@ -1480,13 +1487,18 @@ func (f *frame) appendOp(x *ssa.Call, cur *State) {
 	if !ok {
 		unsup("append to %T", f.val(args[0]))
 	}
-	// append([]byte, string...) special form
+	// append([]byte, string...) special form: the source is a string value (bytes sbyte(str, j), length slen(str))
+	strSrc := Term("")
+	var t slv
 	if vc.eng.sortOf(args[1].Type()) == "Str" {
-		unsup("append(bytes, string...)")
-	}
-	t, ok := f.val(args[1]).(slv)
-	if !ok {
-		unsup("append of %T", f.val(args[1]))
+		strSrc = vc.scalar(f.val(args[1]))
+		t = slv{"0", "0", fmt.Sprintf("(slen %s)", strSrc), "0"}
+	} else {
+		var ok2 bool
+		t, ok2 = f.val(args[1]).(slv)
+		if !ok2 {
+			unsup("append of %T", f.val(args[1]))
+		}
 	}
 	if _, isS := isStruct(st.Elem()); isS {
 		unsup("append on slice of structs")
@@ -1503,8 +1515,12 @@ func (f *frame) appendOp(x *ssa.Call, cur *State) {
 	row := vc.fresh("arow", fmt.Sprintf("(Array Int %s)", sort))
 	// row content: in place: old row of s.arr with t copied at off+len.. ; fresh: prefix copy + t at len..
 	dOff := vc.define("aoff", "Int", fmt.Sprintf("(ite %s %s 0)", inplace, s.off))
-	vc.emit(fmt.Sprintf("(assert (forall ((j Int)) (! (= (select %s j) (ite (and (<= (+ %s %s) j) (< j (+ %s %s))) (select (select %s %s) (+ %s (- j (+ %s %s)))) (ite %s (select (select %s %s) j) (ite (and (<= 0 j) (< j %s)) (select (select %s %s) (+ %s j)) %s)))) :pattern ((select %s j)))))",
-		row, dOff, s.ln, dOff, newLen, h, t.arr, t.off, dOff, s.ln, inplace, h, s.arr, s.ln, h, s.arr, s.off, vc.scalar(vc.zero(st.Elem())), row))
+	srcCell := fmt.Sprintf("(select (select %s %s) (+ %s (- j (+ %s %s))))", h, t.arr, t.off, dOff, s.ln)
+	if strSrc != "" {
+		srcCell = fmt.Sprintf("(sbyte %s (- j (+ %s %s)))", strSrc, dOff, s.ln)
+	}
+	vc.emit(fmt.Sprintf("(assert (forall ((j Int)) (! (= (select %s j) (ite (and (<= (+ %s %s) j) (< j (+ %s %s))) %s (ite %s (select (select %s %s) j) (ite (and (<= 0 j) (< j %s)) (select (select %s %s) (+ %s j)) %s)))) :pattern ((select %s j)))))",
+		row, dOff, s.ln, dOff, newLen, srcCell, inplace, h, s.arr, s.ln, h, s.arr, s.off, vc.scalar(vc.zero(st.Elem())), row))
 	dArr := vc.define("aarr", "Int", fmt.Sprintf("(ite %s %s %s)", inplace, s.arr, fresh))
 	if !f.specMode && vc.modSet != nil && !vc.modSet.all {
 		// in-place append writes into the existing backing array
